@@ -254,7 +254,12 @@ pub fn parse_root_adt<R: Read + Seek>(
         if let Some(chunks) = discovery.get_chunks(ChunkId::MTXF) {
             if let Some(chunk_info) = chunks.first() {
                 reader.seek(SeekFrom::Start(chunk_info.offset + 8))?;
-                Some(MtxfChunk::read_le(reader)?)
+                // Read chunk data into buffer: the entry list runs to the end of its input
+                // and must not continue into the chunks that follow
+                let mut chunk_data = vec![0u8; chunk_info.size as usize];
+                reader.read_exact(&mut chunk_data)?;
+                let mut cursor = std::io::Cursor::new(chunk_data);
+                Some(MtxfChunk::read_le(&mut cursor)?)
             } else {
                 None
             }
@@ -286,7 +291,12 @@ pub fn parse_root_adt<R: Read + Seek>(
         if let Some(chunks) = discovery.get_chunks(ChunkId::MTXP) {
             if let Some(chunk_info) = chunks.first() {
                 reader.seek(SeekFrom::Start(chunk_info.offset + 8))?;
-                Some(MtxpChunk::read_le(reader)?)
+                // Read chunk data into buffer: the entry list runs to the end of its input
+                // and must not continue into the chunks that follow
+                let mut chunk_data = vec![0u8; chunk_info.size as usize];
+                reader.read_exact(&mut chunk_data)?;
+                let mut cursor = std::io::Cursor::new(chunk_data);
+                Some(MtxpChunk::read_le(&mut cursor)?)
             } else {
                 None
             }
@@ -302,7 +312,12 @@ pub fn parse_root_adt<R: Read + Seek>(
         if let Some(chunks) = discovery.get_chunks(ChunkId::MBMH) {
             if let Some(chunk_info) = chunks.first() {
                 reader.seek(SeekFrom::Start(chunk_info.offset + 8))?;
-                Some(MbmhChunk::read_le(reader)?)
+                // Read chunk data into buffer: the entry list runs to the end of its input
+                // and must not continue into the chunks that follow
+                let mut chunk_data = vec![0u8; chunk_info.size as usize];
+                reader.read_exact(&mut chunk_data)?;
+                let mut cursor = std::io::Cursor::new(chunk_data);
+                Some(MbmhChunk::read_le(&mut cursor)?)
             } else {
                 None
             }
@@ -318,7 +333,12 @@ pub fn parse_root_adt<R: Read + Seek>(
         if let Some(chunks) = discovery.get_chunks(ChunkId::MBBB) {
             if let Some(chunk_info) = chunks.first() {
                 reader.seek(SeekFrom::Start(chunk_info.offset + 8))?;
-                Some(MbbbChunk::read_le(reader)?)
+                // Read chunk data into buffer: the entry list runs to the end of its input
+                // and must not continue into the chunks that follow
+                let mut chunk_data = vec![0u8; chunk_info.size as usize];
+                reader.read_exact(&mut chunk_data)?;
+                let mut cursor = std::io::Cursor::new(chunk_data);
+                Some(MbbbChunk::read_le(&mut cursor)?)
             } else {
                 None
             }
@@ -334,7 +354,12 @@ pub fn parse_root_adt<R: Read + Seek>(
         if let Some(chunks) = discovery.get_chunks(ChunkId::MBNV) {
             if let Some(chunk_info) = chunks.first() {
                 reader.seek(SeekFrom::Start(chunk_info.offset + 8))?;
-                Some(MbnvChunk::read_le(reader)?)
+                // Read chunk data into buffer: the entry list runs to the end of its input
+                // and must not continue into the chunks that follow
+                let mut chunk_data = vec![0u8; chunk_info.size as usize];
+                reader.read_exact(&mut chunk_data)?;
+                let mut cursor = std::io::Cursor::new(chunk_data);
+                Some(MbnvChunk::read_le(&mut cursor)?)
             } else {
                 None
             }
@@ -350,7 +375,12 @@ pub fn parse_root_adt<R: Read + Seek>(
         if let Some(chunks) = discovery.get_chunks(ChunkId::MBMI) {
             if let Some(chunk_info) = chunks.first() {
                 reader.seek(SeekFrom::Start(chunk_info.offset + 8))?;
-                Some(MbmiChunk::read_le(reader)?)
+                // Read chunk data into buffer: the entry list runs to the end of its input
+                // and must not continue into the chunks that follow
+                let mut chunk_data = vec![0u8; chunk_info.size as usize];
+                reader.read_exact(&mut chunk_data)?;
+                let mut cursor = std::io::Cursor::new(chunk_data);
+                Some(MbmiChunk::read_le(&mut cursor)?)
             } else {
                 None
             }
